@@ -108,10 +108,11 @@ def run(ctx):
         consts.update({"ParamSets": "<- MC_ParamSets", "Passwords": "<- MC_Passwords", "IdPairs": "<- MC_IdPairs",
                        "ClassSet": "<- MC_ClassSet", "MaxInst": "6", "MaxRestore": "3",
                        "ScalarChoices": "<- MC_ScalarChoices", "Attacker": "<- MC_Attacker"})
-        ctx.mc("MC_Big", cfg(constants=consts, invariants=["TypeOK", "Agreement", "NoAgreementButFindings", "AtMostOneMsg", "AtMostOneKey",
+        # SpecF: the same machine with entropy functions that may raise (Spake2!StartFails)
+        ctx.mc("MC_Big", cfg(spec="SpecF", constants=consts, invariants=["TypeOK", "Agreement", "NoAgreementButFindings", "AtMostOneMsg", "AtMostOneKey",
                                                            "EntropyOnlyInStart", "NeverKeyForWrongSide", "KeyOnlyFromCanonical",
                                                            "RestoreEquivalent", "LifecycleInv"], properties=["ScalarStable", "RefinesLifecycle"]),
-               label="MC_Big/simulate[%s, 6 instances, 3 restores, attacker]" % g,
+               label="MC_Big/simulate[%s, 6 instances, 3 restores, attacker, failing entropy]" % g,
                simulate="num=%d" % (150 if thorough else 12), extra=["-depth", "30", "-seed", str(ctx.seed + 1)], timeout=3000)
     uni = Universe()
     mp = Mapper(uni)
